@@ -9,7 +9,7 @@ from ..core.callgraph import callgraph
 from ..core.effects import effects
 from ..core.match import txt
 from ..core.source import AnchorMissing
-from .common import A2G, ACHAIN, GOOFIT, ckey, fn, stmt_of, where
+from .common import A2G, ACHAIN, GOOFIT, ckey, enclosing, fn, stmt_of, where
 
 PROP = "C20"
 FILES = [ACHAIN, GOOFIT, A2G, "modeling/decay.py", "modeling/ampgentransform.py"]
@@ -31,6 +31,7 @@ def run(ctx, ss):
     # C20.6: nothing on the way from the observed entry points is memoised on a parser / tree / path / container (shared.py)
     from .shared import memo_for
     ctx.guard("C20.6", memo_for, ss, "C20", "C20.6", "a conversion")
+    ctx.guard("C20.7", c20_7, ss)
 
 
 def _class_state_writes(ss):
@@ -286,3 +287,33 @@ def c20_5(ctx, ss):
     for k, ff in ef.cg.funcs.items():
         if ff.module.startswith("modeling/") and set(ff.decorators) & {"lru_cache", "cache", "cached_property"}:
             ctx.violation("C20.5", ckey(ff, None, "cached"), where(ff, ff.node), f"{ff.qualname} is cached across calls")
+
+
+def c20_7(ctx, ss):
+    """The particle table of the process is extended (and K(1460) overridden) by the shipped special-particle table the first
+    time a line is read.  What a name resolves to must not depend on whether that has happened already: the 'load if absent'
+    step comes before the first name lookup on every path through from_matched_line."""
+    ff, flow = fn(ss, ACHAIN, "AmplitudeChain.from_matched_line")
+    loads = [c for c in pf.calls_in(ff.node) if txt(c.func).endswith("load_table")]
+    looks = [c for c in pf.calls_in(ff.node) if txt(c.func) == "particle_from_string_name"]
+    k = ckey(ff, None, "table-before-lookup")
+    if not loads:
+        ctx.violation("C20.7", k, where(ff, ff.node), "the special-particle table is no longer loaded on the read path: names defined only there cannot be read")
+        return
+    if not looks:
+        raise AnchorMissing("from_matched_line: particle_from_string_name call not found")
+    # the statement that decides about loading: the outermost `if` around the load (or the load statement itself)
+    st_l = stmt_of(ff, loads[0])
+    outer = [x for x in enclosing(ff, loads[0], (ast.If,))]
+    top = outer[-1] if outer else st_l
+    ok = all(flow.cfg.dominates(flow.cfg.node_of(top), flow.cfg.node_of(stmt_of(ff, c))) for c in looks)
+    # ... and that decision depends on the table only (not on the line being read)
+    conds = [txt(flow.expand(e)) for kind, e, pol in guards.path_conditions(ff.node, st_l) if kind == "if"]
+    line_dep = [c for c in conds if ff.params[1] in {n.id for n in ast.walk(ast.parse(c, mode="eval")) if isinstance(n, ast.Name)}] if len(ff.params) > 1 else []
+    if ok and not line_dep:
+        ctx.holds("C20.7", k, where(ff, loads[0]), "the special-particle table is loaded, if absent, before any name of the line is looked up", len(looks) + 1)
+    elif not ok:
+        ctx.violation("C20.7", k, where(ff, loads[0]), "a name can be looked up before the special-particle table is loaded: the first line read in a process resolves names "
+                      "(K(1460), the Mint-only objects) differently from every later one")
+    else:
+        ctx.violation("C20.7", k, where(ff, loads[0]), f"whether the special-particle table is loaded depends on the line being read ({line_dep[0][:60]}): results depend on what was read before")
